@@ -7,7 +7,8 @@ macro_rules! impl_bytes_utils_for_allocator {
     const SIZE: usize = core::mem::size_of::<$ty>();
 
     let allocated = $this.allocated();
-    if $offset + SIZE > allocated {
+    // `offset + SIZE` must not wrap: an offset near `usize::MAX` is out of bounds, not a small sum
+    if $offset.checked_add(SIZE).map_or(true, |end| end > allocated) {
       return Err(Error::OutOfBounds { $offset, allocated });
     }
 
